@@ -58,6 +58,29 @@ Proof.
   destruct rt; eexists; reflexivity.
 Qed.
 
+(* a response that cannot be used (a subscribing call answered with something that is not a channel id) is dropped by the
+   executor after the lookup: nothing is sent to the caller and the request stays registered in flight, so the close
+   (closeInFlight) still finds and fails it. With c03_no_orphan / c18_inflight_returned, which quantify over traces
+   containing such events too, the call returns at the close. *)
+Theorem c18_unusable_response_keeps_request : forall v s id s',
+  step v s (ExecAbandon id) = Some s' -> inflight s' = inflight s /\ calls s' = calls s /\ exe s' = EIdle.
+Proof.
+  intros v s id s' H. simpl in H. destruct (exe s) as [|k att|]; try discriminate. destruct (N.eqb k id); [|discriminate].
+  injection H as <-. repeat split.
+Qed.
+
+(* in every reachable state: while the executor holds the looked-up request of a call's current attempt and the call waits
+   with an empty mailbox, the in-flight entry is there (so dropping the response at that point orphans nobody) *)
+Theorem c18_looked_up_entry_present : forall es s id att c,
+  run repaired_c init es = Some s -> exe s = ELooked id att -> lookup id (calls s) = Some c -> attempts c = att ->
+  pending_empty c = true -> entry_is s id att = true.
+Proof. intros es s id att c H. exact (reachable_looked es s H id att c). Qed.
+
+Example c18_abandon_then_close : exists s,
+  run repaired_c init [CallStart 1 false; LoopTake 1; LoopRegister 1; LoopSent 1 true; ExecLookup 1 true; ExecAbandon 1;
+                       CifDeliver 1; CifCleared; LoopExit; CallRecv 1 true; CallReturn 1 OConnErr]%N = Some s /\ no_orphan s = true.
+Proof. eexists. split; [vm_compute; reflexivity|reflexivity]. Qed.
+
 (* the functions this property's model is an abstraction of still have the control / locking / shared-state skeleton the
    model was written against (Skeletons.v, by hand; Extracted.v, regenerated from /repo) *)
 Theorem c18_code_skeletons :
@@ -69,6 +92,8 @@ Theorem c18_code_skeletons :
 Proof. repeat split; reflexivity. Qed.
 
 Print Assumptions c18_code_skeletons.
+Print Assumptions c18_unusable_response_keeps_request.
+Print Assumptions c18_looked_up_entry_present.
 Print Assumptions c18_source_closers.
 Print Assumptions c18_exit_needs_clean_table.
 Print Assumptions c18_inflight_returned.
